@@ -489,6 +489,8 @@ def sc_label(e):
         return "%s(%s,%s)" % (ev, e["p"], e["h"])
     if ev == "Write":
         return "Write(%s)" % e["h"]
+    if ev == "SetRD":
+        return "SetRD(%s,%s)" % (e["h"], "TRUE" if e["v"] else "FALSE")
     if "p" in e:
         return "%s(%s)" % (ev, e["p"])
     return ev
@@ -536,9 +538,9 @@ def sc_try_enter(path):
     return out
 
 
-def sc_config(work, binary, verdict, stats, seed, kind, nh, nk, nr, grams, writes, replay_it=True, timeout=900, tier="quick"):
-    key = "SharedConn_%s_h%dk%dr%dg%dw%d" % (kind, nh, nk, nr, grams, writes)
-    consts = ["NHandles = %d" % nh, "NClosers = %d" % nk, "NReaders = %d" % nr, "MaxGrams = %d" % grams, "MaxWrites = %d" % writes]
+def sc_config(work, binary, verdict, stats, seed, kind, nh, nk, nr, grams, writes, replay_it=True, timeout=900, tier="quick", dl=0):
+    key = "SharedConn_%s_h%dk%dr%dg%dw%d%s" % (kind, nh, nk, nr, grams, writes, "d%d" % dl if dl else "")
+    consts = ["NHandles = %d" % nh, "NClosers = %d" % nk, "NReaders = %d" % nr, "MaxGrams = %d" % grams, "MaxWrites = %d" % writes, "MaxDl = %d" % dl]
     d = Dir(work.path("mc-" + key))
     cfg = write_cfg(d, "MC_%s.cfg" % key, ["SPECIFICATION Spec", "CONSTANTS"] + consts +
                     ["INVARIANTS UnderlyingClosedOnce OwnIOFails SiblingsUsable", "CHECK_DEADLOCK FALSE"])
@@ -562,11 +564,13 @@ def sc_config(work, binary, verdict, stats, seed, kind, nh, nk, nr, grams, write
 
 def sc_run(work, binary, verdict, stats, tier, seed):
     if tier == "quick":
-        cfgs = [("udp", 2, 3, 1, 1, 1, True), ("udp", 3, 3, 0, 0, 1, True), ("udp", 2, 2, 2, 1, 0, True), ("tcp", 2, 3, 2, 0, 0, True)]
+        cfgs = [("udp", 2, 3, 1, 1, 1, True), ("udp", 3, 3, 0, 0, 1, True), ("udp", 2, 2, 2, 1, 0, True), ("tcp", 2, 3, 2, 0, 0, True),
+                ("udp", 2, 1, 2, 1, 0, True, 2)]      # read deadlines: a handle's own, whatever its siblings do
     else:
         cfgs = [("udp", 2, 3, 2, 1, 1, True), ("udp", 3, 3, 1, 0, 1, True), ("udp", 2, 2, 2, 2, 1, True), ("tcp", 3, 3, 2, 0, 0, True),
-                ("udp", 3, 3, 2, 1, 1, False)]
-    parallel([lambda c=c: sc_config(work, binary, verdict, stats, seed, *c[:6], replay_it=c[6], timeout=1500, tier=tier) for c in cfgs], 2)
+                ("udp", 3, 3, 2, 1, 1, False), ("udp", 2, 2, 2, 1, 1, True, 2), ("tcp", 2, 1, 2, 0, 0, True, 2)]
+    parallel([lambda c=c: sc_config(work, binary, verdict, stats, seed, *c[:6], replay_it=c[6], timeout=1500, tier=tier, dl=(c[7] if len(c) > 7 else 0))
+              for c in cfgs], 2)
 
 
 def parallel(fns, n):
@@ -909,7 +913,7 @@ def replay_file(path):
             consts, preds = mw_consts(job["writers"], job["aborters"], job.get("rounds", 1)), MW_PREDS
         elif fam == "sc":
             consts = ["NHandles = %d" % len(job["handles"]), "NClosers = %d" % len(job["closers"]), "NReaders = %d" % len(job["readers"]),
-                      "MaxGrams = 4", "MaxWrites = 4"]
+                      "MaxGrams = 4", "MaxWrites = 4", "MaxDl = 8"]
             preds = SC_PREDS
         else:
             seq = job["mode"] == "seq"
